@@ -36,7 +36,7 @@ ASSUMPTIONS = ["keys handed to the constructor are distinct (the library's docum
 def _history(rng, keys, absent, n_ops, lo=-9):
     ops = []
     for _ in range(n_ops):
-        t = rng.choice(["getvec", "getvec", "get1", "setscalar", "seteach", "fill", "contains", "items", "hs_contains", "zeros_like", "ones_like", "add_self", "eq_self"])
+        t = rng.choice(["getvec", "getvec", "get1", "setscalar", "seteach", "fill", "contains", "items", "hs_contains", "zeros_like", "ones_like", "add_self", "eq_self", "add_perm"])
         if t == "getvec":
             ops.append({"t": t, "ks": htgen.queries(rng, keys, absent)})
         elif t == "get1":
@@ -48,6 +48,10 @@ def _history(rng, keys, absent, n_ops, lo=-9):
             ops.append({"t": t, "ks": ks, "xs": [rng.randint(lo, 99) for _ in ks]})
         elif t == "fill":
             ops.append({"t": t, "x": rng.randint(lo, 99)})
+        elif t == "add_perm":
+            # t + t2 where t2 holds the SAME keys, handed to the constructor in another order, with its own values
+            perm = list(range(len(keys))); rng.shuffle(perm)
+            ops.append({"t": t, "perm": perm, "xs": [rng.randint(0, 50) for _ in keys]})
         elif t in ("contains", "hs_contains"):
             ks = htgen.queries(rng, keys, absent, maxlen=5) + ([rng.choice(absent)] if absent and rng.random() < 0.5 else [])
             ops.append({"t": t, "ks": ks})
@@ -70,7 +74,7 @@ def cases(rng, tier):
         scalar = rng.random() < 0.3
         # a scalar-valued table without value_dtype stores values in the KEY dtype: keep them representable
         lo = 0 if np.dtype(dt).kind == "u" else -9
-        vals = rng.randint(0, 5) if scalar else [rng.randint(lo, 99) for _ in keys]
+        vals = rng.choice([0, 1, 2, 3, 4, 5, 2.5, 0.75]) if scalar else [rng.randint(lo, 99) for _ in keys]
         out.append({"keys": keys, "kdtype": dt, "qdtype": qdt, "mod": mod, "vals": vals,
                     "vdtype": rng.choice(["int64", "int64", "float64", "int32"]),
                     "ops": _history(rng, keys, absent, rng.randint(1, 8), lo)})
@@ -137,11 +141,19 @@ def run_impl(p):
                     return htgen.sort_pairs((kk, _num(v)) for kk, v in np.ones_like(t).to_dict().items())
                 if k == "add_self":
                     return htgen.sort_pairs((kk, _num(v)) for kk, v in (t + t).to_dict().items())
+                if k == "add_perm":
+                    k2 = np.array([p["keys"][i] for i in o["perm"]], dtype=kd)
+                    t2 = HashTable(k2, np.array(o["xs"], dtype=np.int64), **kw)
+                    try:
+                        r = t + t2
+                    except Exception:
+                        return "not-judged"      # refusing to add tables whose buckets are laid out differently is legitimate
+                    return htgen.sort_pairs((kk, _num(v)) for kk, v in r.to_dict().items())
                 if k == "eq_self":
                     return bool(t == t)
             try:
                 r = one()
-                trace.append({"k": "refuse"} if r is None else json_safe(r))
+                trace.append(None if r == "not-judged" else ({"k": "refuse"} if r is None else json_safe(r)))
             except Exception as e:
                 if o["t"] in ("setscalar", "seteach"):
                     trace.append(False)
@@ -189,6 +201,9 @@ def oracle(p):
             trace.append(htgen.sort_pairs((q, 1) for q in d))
         elif k == "add_self":
             trace.append(htgen.sort_pairs((q, 2 * v) for q, v in d.items()))
+        elif k == "add_perm":
+            d2 = {p["keys"][i]: x for i, x in zip(o["perm"], o["xs"])}
+            trace.append(htgen.sort_pairs((q, v + d2[q]) for q, v in d.items()))
         elif k == "eq_self":
             trace.append(True)
     return {"k": "trace", "v": trace}
@@ -199,6 +214,8 @@ LEAN_OPS = ("getvec", "get1", "setscalar", "seteach", "fill", "contains", "items
 
 def lean_request(p):
     # HashSet(keys).contains is the `contains` of a table over the same keys (its values play no role)
+    if isinstance(p["vals"], float):
+        return None          # a non-integral shared value: the model's values are integers
     ops = [dict(o, t="contains") if o["t"] == "hs_contains" else o for o in p["ops"] if o["t"] in LEAN_OPS]
     return {"op": "HT.run", "keys": p["keys"], "vals": p["vals"], "mod": p["mod"], "ops": ops}
 
